@@ -173,11 +173,15 @@ Proof.
     pose proof (msizes_le l HF) as H. destruct l as [|v r]; [cbn; lia|]. cbn [List.length Nat.pred] in *. lia.
 Qed.
 
-Definition no_ws (ts : list token) : bool := forallb (fun t => negb (is_ws_tok t)) ts.
-Lemma strip_id : forall ts, no_ws ts = true -> strip ts = ts.
+Definition is_strj (t : token) : bool := match t with TStrJ _ => true | _ => false end.
+Definition plain_tok (t : token) : bool := negb (is_ws_tok t) && negb (is_strj t).
+Definition no_ws (ts : list token) : bool := forallb plain_tok ts.
+Lemma prep_id : forall ts, no_ws ts = true -> prep ts = ts.
 Proof.
   induction ts as [|t r IH]; [reflexivity|]. cbn [no_ws forallb]. intros H.
-  apply andb_prop in H. destruct H as [Ht Hr]. unfold strip. cbn [filter]. rewrite Ht. f_equal. apply IH, Hr.
+  apply andb_prop in H. destruct H as [Ht Hr]. unfold prep, strip in *. cbn [filter].
+  unfold plain_tok in Ht. apply andb_prop in Ht. destruct Ht as [Hw Hj]. rewrite Hw. cbn [map].
+  rewrite (IH Hr). destruct t; try reflexivity. discriminate Hj.
 Qed.
 Lemma no_ws_app : forall a b, no_ws (a ++ b) = no_ws a && no_ws b.
 Proof. intros. apply forallb_app. Qed.
@@ -186,7 +190,7 @@ Proof.
   induction xs as [|x r IH]; intros HF; [reflexivity|]. inversion HF as [|x' r' Hx Hr]; subst.
   destruct r as [|y r'].
   - rewrite join_one. exact Hx.
-  - rewrite join_cons2, no_ws_app, Hx. cbn [no_ws forallb is_ws_tok negb andb]. apply IH, Hr.
+  - rewrite join_cons2, no_ws_app, Hx. cbn [no_ws forallb plain_tok is_ws_tok is_strj negb andb]. apply IH, Hr.
 Qed.
 Lemma no_ws_tokens_of : forall d, no_ws (tokens_of d) = true.
 Proof.
@@ -196,12 +200,13 @@ Proof.
     rewrite no_ws_join; [reflexivity|]. apply Forall_map. exact HF.
   - rewrite tokens_of_obj. change (TObjS :: ?x) with ([TObjS] ++ x). rewrite !no_ws_app.
     rewrite no_ws_join; [reflexivity|]. apply Forall_map.
-    eapply Forall_impl; [|exact HF]. intros kv H. unfold member_toks. cbn [no_ws forallb is_ws_tok negb andb]. exact H.
+    eapply Forall_impl; [|exact HF]. intros kv H. unfold member_toks.
+    cbn [no_ws forallb plain_tok is_ws_tok is_strj negb andb]. exact H.
 Qed.
 
 Lemma parse_tokens_of : forall d, parse (tokens_of d) = Some d.
 Proof.
-  intros d. unfold parse. rewrite (strip_id _ (no_ws_tokens_of d)).
+  intros d. unfold parse. rewrite (prep_id _ (no_ws_tokens_of d)).
   rewrite <- (app_nil_r (tokens_of d)) at 2.
   rewrite (parse_val_tokens_of d _ [] (Nat.le_trans _ _ _ (size_le_length d) (Nat.le_succ_diag_r _))).
   reflexivity.
@@ -229,6 +234,121 @@ Lemma lex_str_quote_body : forall s rest,
 Proof.
   induction s as [|c s IH]; intros rest; [reflexivity|].
   cbn [quote_body]. rewrite sapp_assoc, lex_str_esc_char, IH. reflexivity.
+Qed.
+
+(* encoding/json strings: what json.Marshal writes is read back as the sanitised string *)
+Lemma lex_str_gj_esc : forall c r, (code c <? 128)%N = true ->
+  lex_str (gj_esc c ++ r)%string = push (String c EmptyString) (lex_str r).
+Proof.
+  intros c r. destruct c as [b0 b1 b2 b3 b4 b5 b6 b7].
+  destruct b0, b1, b2, b3, b4, b5, b6, b7; intros H; try discriminate H; reflexivity.
+Qed.
+Lemma lex_str_hi : forall a r, (code a <? 128)%N = false ->
+  lex_str (String a r) = push (String a EmptyString) (lex_str r).
+Proof.
+  intros c r. destruct c as [b0 b1 b2 b3 b4 b5 b6 b7].
+  destruct b0, b1, b2, b3, b4, b5, b6, b7; intros H; try discriminate H; reflexivity.
+Qed.
+Lemma lex_str_ufffd : forall r, lex_str (ufffd_esc ++ r)%string = push ufffd_bytes (lex_str r).
+Proof. reflexivity. Qed.
+Lemma code_inj : forall a n, code a = n -> a = chr n.
+Proof. intros a n <-. unfold code, chr. now rewrite ascii_N_embedding. Qed.
+
+Lemma gj_walk_pair : forall s, gj_walk s = (gojson_body s, sanitize s).
+Proof. intros s. unfold gojson_body, sanitize. now destruct (gj_walk s). Qed.
+
+Lemma push_some : forall x s rest, push x (Some (s, rest)) = Some ((x ++ s)%string, rest).
+Proof. reflexivity. Qed.
+
+Lemma lex_str_gj : forall n s rest, String.length s <= n ->
+  lex_str (gojson_body s ++ String (chr 34) rest)%string = Some (sanitize s, rest).
+Proof.
+  induction n as [|n IH]; intros s rest Hn.
+  - destruct s; [reflexivity|cbn in Hn; lia].
+  - destruct s as [|a r]; [reflexivity|]. cbn [String.length] in Hn.
+    assert (Hbad : forall q, String.length q <= n ->
+              lex_str ((ufffd_esc ++ gojson_body q) ++ String (chr 34) rest)%string =
+              Some ((ufffd_bytes ++ sanitize q)%string, rest)).
+    { intros q Hq. rewrite sapp_assoc, lex_str_ufffd, (IH q rest Hq). reflexivity. }
+    unfold gojson_body, sanitize. cbn [gj_walk].
+    destruct (code a <? 128)%N eqn:Ha.
+    + rewrite gj_walk_pair. cbn [fst snd]. rewrite sapp_assoc, (lex_str_gj_esc a _ Ha), (IH r rest ltac:(lia)).
+      reflexivity.
+    + destruct r as [|b r2].
+      * cbn [gj_walk fst snd]. exact (Hbad EmptyString ltac:(cbn; lia)).
+      * cbn [String.length] in Hn.
+        assert (Hb : forall q, (utf8_two (code a) (code b) = true \/ is_cont (code b) = true) ->
+                  lex_str (String b q) = push (String b EmptyString) (lex_str q)).
+        { intros q Hc. apply lex_str_hi. unfold utf8_two, is_cont in Hc.
+          destruct Hc as [Hc|Hc]; apply N.ltb_ge.
+          - apply andb_prop in Hc. destruct Hc as [_ Hc]. apply andb_prop in Hc. destruct Hc as [Hc _].
+            apply N.leb_le in Hc. lia.
+          - apply andb_prop in Hc. destruct Hc as [Hc _]. apply N.leb_le in Hc. lia. }
+        destruct (utf8_two (code a) (code b)) eqn:H2.
+        { rewrite gj_walk_pair. cbn [fst snd append].
+          rewrite (lex_str_hi a _ Ha), (Hb _ (or_introl eq_refl)), (IH r2 rest ltac:(lia)). reflexivity. }
+        destruct r2 as [|c r3].
+        { rewrite gj_walk_pair. cbn [fst snd]. apply Hbad. cbn. lia. }
+        cbn [String.length] in Hn.
+        destruct (utf8_three (code a) (code b) (code c)) eqn:H3.
+        { rewrite gj_walk_pair. cbn [fst snd].
+          assert (Hcb : is_cont (code b) = true /\ is_cont (code c) = true).
+          { unfold utf8_three in H3. apply andb_prop in H3. destruct H3 as [H3 Hc]. split; [|exact Hc].
+            unfold is_cont.
+            apply orb_prop in H3. destruct H3 as [H3|H3].
+            - apply orb_prop in H3. destruct H3 as [H3|H3].
+              + apply andb_prop in H3. destruct H3 as [H3 H4]. apply andb_prop in H3. destruct H3 as [_ H3].
+                apply N.leb_le in H3, H4. apply andb_true_intro. split; apply N.leb_le; lia.
+              + apply andb_prop in H3. destruct H3 as [_ H3]. exact H3.
+            - apply andb_prop in H3. destruct H3 as [H3 H4]. apply andb_prop in H3. destruct H3 as [_ H3].
+              apply N.leb_le in H3, H4. apply andb_true_intro. split; apply N.leb_le; lia. }
+          destruct Hcb as [Hcb Hcc].
+          destruct (is_linesep (code a) (code b) (code c)) eqn:Hl.
+          - unfold is_linesep in Hl. apply andb_prop in Hl. destruct Hl as [Hl Hz].
+            apply andb_prop in Hl. destruct Hl as [Hx Hy].
+            apply N.eqb_eq in Hx, Hy. apply code_inj in Hx, Hy. subst a b.
+            apply orb_prop in Hz. destruct Hz as [Hz|Hz]; apply N.eqb_eq in Hz; pose proof Hz as Hz';
+              apply code_inj in Hz'; subst c; rewrite Hz; rewrite sapp_assoc.
+            + change (lex_str (u202x_esc 168 ++ ?q)%string) with
+                (push (String (chr 226) (String (chr 128) (String (chr 168) EmptyString))) (lex_str q)).
+              rewrite (IH r3 rest ltac:(lia)). reflexivity.
+            + change (lex_str (u202x_esc 169 ++ ?q)%string) with
+                (push (String (chr 226) (String (chr 128) (String (chr 169) EmptyString))) (lex_str q)).
+              rewrite (IH r3 rest ltac:(lia)). reflexivity.
+          - cbn [append]. rewrite (lex_str_hi a _ Ha), (Hb _ (or_intror Hcb)).
+            rewrite (lex_str_hi c); [|unfold is_cont in Hcc; apply andb_prop in Hcc; destruct Hcc as [Hcc _];
+                                      apply N.leb_le in Hcc; apply N.ltb_ge; lia].
+            rewrite (IH r3 rest ltac:(lia)). reflexivity. }
+        destruct r3 as [|g r4].
+        { rewrite gj_walk_pair. cbn [fst snd]. apply Hbad. cbn. lia. }
+        cbn [String.length] in Hn.
+        destruct (utf8_four (code a) (code b) (code c) (code g)) eqn:H4.
+        { rewrite gj_walk_pair. cbn [fst snd append].
+          unfold utf8_four in H4. apply andb_prop in H4. destruct H4 as [H4 Hg].
+          apply andb_prop in H4. destruct H4 as [H4 Hc].
+          assert (Hcb : is_cont (code b) = true).
+          { unfold is_cont. apply orb_prop in H4. destruct H4 as [H4|H4].
+            - apply orb_prop in H4. destruct H4 as [H4|H4].
+              + apply andb_prop in H4. destruct H4 as [H4 H5]. apply andb_prop in H4. destruct H4 as [_ H4].
+                apply N.leb_le in H4, H5. apply andb_true_intro. split; apply N.leb_le; lia.
+              + apply andb_prop in H4. destruct H4 as [_ H4]. exact H4.
+            - apply andb_prop in H4. destruct H4 as [H4 H5]. apply andb_prop in H4. destruct H4 as [_ H4].
+              apply N.leb_le in H4, H5. apply andb_true_intro. split; apply N.leb_le; lia. }
+          assert (Hhi : forall y, is_cont (code y) = true -> (code y <? 128)%N = false).
+          { intros y Hy. unfold is_cont in Hy. apply andb_prop in Hy. destruct Hy as [Hy _].
+            apply N.leb_le in Hy. apply N.ltb_ge. lia. }
+          rewrite (lex_str_hi a _ Ha), (lex_str_hi b _ (Hhi b Hcb)), (lex_str_hi c _ (Hhi c Hc)),
+            (lex_str_hi g _ (Hhi g Hg)), (IH r4 rest ltac:(lia)). reflexivity. }
+        rewrite gj_walk_pair. cbn [fst snd]. apply Hbad. cbn. lia.
+Qed.
+
+Lemma lex_strj_tok : forall f s r, lex (S f) (gojson_quote s ++ r)%string = tcons (TStr (sanitize s)) (lex f r).
+Proof.
+  intros f s r. unfold gojson_quote. cbn [append]. rewrite sapp_assoc.
+  change (str1 34 ++ r)%string with (String (chr 34) r).
+  change (lex (S f) (String (chr 34) ?x)) with
+    (match lex_str x with Some (y, r') => tcons (TStr y) (lex f r') | None => None end).
+  rewrite (lex_str_gj (String.length s) s r (le_n _)). reflexivity.
 Qed.
 
 Definition delim_start (s : string) : bool :=
@@ -333,10 +453,11 @@ Qed.
 
 Lemma lex_tok : forall t f r,
   match t with TRaw s => num_ok s = true /\ closes r = true | TWs _ => False | _ => True end ->
-  lex (S f) (render_tok t ++ render r)%string = tcons t (lex f (render r)).
+  lex (S f) (render_tok t ++ render r)%string = tcons (norm_tok t) (lex f (render r)).
 Proof.
-  intros t f r H. destruct t; cbn [render_tok]; try reflexivity.
+  intros t f r H. destruct t; cbn [render_tok norm_tok]; try reflexivity.
   - apply lex_str_tok.
+  - apply lex_strj_tok.
   - destruct H as [Hn Hc]. apply lex_raw; [exact Hn|apply closes_delim, Hc].
   - contradiction.
 Qed.
@@ -344,7 +465,7 @@ Qed.
 Lemma cost_cons : forall t r, is_ws_tok t = false -> cost (t :: r) = S (cost r).
 Proof. intros t r H. destruct t; try reflexivity. discriminate H. Qed.
 
-Lemma lex_render_fuel : forall ts f, lexable ts = true -> cost ts < f -> lex f (render ts) = Some (strip ts).
+Lemma lex_render_fuel : forall ts f, lexable ts = true -> cost ts < f -> lex f (render ts) = Some (prep ts).
 Proof.
   induction ts as [|t r IH]; intros f Hl Hc.
   - destruct f; [lia|]. reflexivity.
@@ -352,10 +473,10 @@ Proof.
     cbn [render]. destruct (is_ws_tok t) eqn:Hw.
     + destruct t; try discriminate Hw. cbn [cost] in Hc. cbn [render_tok].
       replace f with (String.length s + (f - String.length s)) by lia.
-      rewrite (lex_ws s _ _ Ht). unfold strip. cbn [filter is_ws_tok negb]. apply IH; [exact Hr|lia].
+      rewrite (lex_ws s _ _ Ht). unfold prep, strip. cbn [filter is_ws_tok negb]. apply IH; [exact Hr|lia].
     + rewrite (cost_cons t r Hw) in Hc. destruct f as [|f]; [lia|].
       rewrite lex_tok.
-      * rewrite (IH f Hr ltac:(lia)). unfold strip. cbn [filter]. rewrite Hw. reflexivity.
+      * rewrite (IH f Hr ltac:(lia)). unfold prep, strip. cbn [filter]. rewrite Hw. reflexivity.
       * destruct t; try exact I; [|discriminate Hw]. apply andb_prop in Ht. exact Ht.
 Qed.
 
@@ -366,11 +487,12 @@ Proof.
   cbn [render]. rewrite slength_app.
   destruct t; cbn [cost render_tok]; try (cbn [str1 String.length]; lia).
   - unfold quote. cbn [String.length]. lia.
+  - unfold gojson_quote. cbn [String.length]. lia.
   - apply andb_prop in Ht. destruct Ht as [Hn _]. destruct (num_ok_nonempty s Hn) as [c [s' ->]].
     cbn [String.length]. lia.
 Qed.
 
-Theorem lex_render : forall ts, lexable ts = true -> lex_bytes (render ts) = Some (strip ts).
+Theorem lex_render : forall ts, lexable ts = true -> lex_bytes (render ts) = Some (prep ts).
 Proof.
   intros ts H. unfold lex_bytes. apply lex_render_fuel; [exact H|]. pose proof (cost_le_length ts H). lia.
 Qed.
@@ -413,7 +535,7 @@ Qed.
 Theorem parse_bytes_render : forall d, nums_ok d = true -> parse_bytes (render (tokens_of d)) = Some d.
 Proof.
   intros d Hn. unfold parse_bytes. rewrite lex_render.
-  - rewrite (strip_id _ (no_ws_tokens_of d)). apply parse_tokens_of.
+  - rewrite (prep_id _ (no_ws_tokens_of d)). apply parse_tokens_of.
   - rewrite <- (app_nil_r (tokens_of d)). apply (lexable_tokens_of d Hn); reflexivity.
 Qed.
 
@@ -861,3 +983,70 @@ Example before_fix_23_not_json : parse_bytes (render (enc_streams HdrFpOnly [[w0
 Proof. vm_compute. reflexivity. Qed.
 Example after_fix_23 : parse_bytes (render (enc_streams HdrFirstOrFp [[w0]; [w7]])) = Some (doc_streams [[w0]; [w7]]).
 Proof. vm_compute. reflexivity. Qed.
+
+(* ------------------------------------------------------------------------------------------ *)
+(* list endpoints (tempo tags / tag values, labels / label values) *)
+
+Lemma prep_app : forall a b, prep (a ++ b) = prep a ++ prep b.
+Proof. intros a b. unfold prep, strip. now rewrite filter_app, map_app. Qed.
+
+Definition simple_tok (t : token) : bool :=
+  match t with TRaw _ => false | TWs s => all_ws s | _ => true end.
+Lemma simple_lexable : forall ts, forallb simple_tok ts = true -> lexable ts = true.
+Proof.
+  induction ts as [|t r IH]; [reflexivity|]. cbn [forallb lexable]. intros H.
+  apply andb_prop in H. destruct H as [Ht Hr]. rewrite (IH Hr), andb_true_r.
+  destruct t; try reflexivity; [discriminate Ht|exact Ht].
+Qed.
+
+Lemma list_loop_true : forall item xs, list_loop item xs true = flat_map (fun x => TComma :: item x) xs.
+Proof. intros item. induction xs as [|x r IH]; [reflexivity|]. cbn [list_loop flat_map app]. now rewrite IH. Qed.
+
+Lemma prep_list_loop : forall xs,
+  prep (list_loop (fun x => [TStrJ x]) xs false) = join (map tokens_of (map (fun x => JStr (sanitize x)) xs)).
+Proof.
+  intros [|x r]; [reflexivity|]. cbn [list_loop map app]. rewrite join_flat, list_loop_true.
+  change (TStrJ x :: ?l) with ([TStrJ x] ++ l). rewrite prep_app. cbn [tokens_of]. f_equal.
+  induction r as [|y r IH]; [reflexivity|]. cbn [flat_map map app].
+  change (TComma :: TStrJ y :: ?l) with ([TComma; TStrJ y] ++ l). rewrite prep_app, IH. reflexivity.
+Qed.
+
+Lemma simple_list_loop : forall xs i, forallb simple_tok (list_loop (fun x => [TStrJ x]) xs i) = true.
+Proof.
+  induction xs as [|x r IH]; intros i; [reflexivity|]. cbn [list_loop]. rewrite forallb_app.
+  destruct i; cbn [forallb simple_tok andb app]; apply IH.
+Qed.
+
+Lemma parse_bytes_of_prep : forall ts d, lexable ts = true -> prep ts = tokens_of d ->
+  parse_bytes (render ts) = Some d.
+Proof.
+  intros ts d Hl Hp. unfold parse_bytes. rewrite (lex_render ts Hl), Hp. apply parse_tokens_of.
+Qed.
+
+Theorem tempo_list_bytes : forall key xs,
+  parse_bytes (render (enc_tempo_list key xs)) = Some (doc_tempo_list key xs).
+Proof.
+  intros key xs. apply parse_bytes_of_prep.
+  - apply simple_lexable. unfold enc_tempo_list. rewrite !forallb_app, simple_list_loop. reflexivity.
+  - unfold enc_tempo_list, doc_tempo_list. rewrite !prep_app, prep_list_loop.
+    rewrite tokens_of_obj. cbn [map]. rewrite join_one. unfold member_toks. cbn [fst snd].
+    rewrite tokens_of_arr. cbn [app]. now rewrite <- app_assoc.
+Qed.
+
+Theorem labels_bytes : forall xs, parse_bytes (render (enc_labels xs)) = Some (doc_labels xs).
+Proof.
+  intros xs. apply parse_bytes_of_prep.
+  - apply simple_lexable. unfold enc_labels. rewrite !forallb_app, simple_list_loop. reflexivity.
+  - unfold enc_labels, doc_labels. rewrite !prep_app, prep_list_loop.
+    rewrite tokens_of_obj. cbn [map]. rewrite join_cons2, join_one. unfold member_toks. cbn [fst snd].
+    rewrite tokens_of_arr. cbn [tokens_of app]. now rewrite <- app_assoc.
+Qed.
+
+(* valid UTF-8 made of plain ASCII is kept byte for byte by json.Marshal + reader *)
+Fixpoint all_ascii (s : string) : bool :=
+  match s with EmptyString => true | String c r => (code c <? 128)%N && all_ascii r end.
+Lemma sanitize_ascii : forall s, all_ascii s = true -> sanitize s = s.
+Proof.
+  induction s as [|c r IH]; [reflexivity|]. cbn [all_ascii]. intros H. apply andb_prop in H. destruct H as [Hc Hr].
+  unfold sanitize in *. cbn [gj_walk]. rewrite Hc. destruct (gj_walk r) as [e d]. cbn [snd] in *. now rewrite (IH Hr).
+Qed.
